@@ -389,7 +389,7 @@ oscore_validate_sender_seq(oscore_recipient_ctx_t *ctx, cose_encrypt0_t *cose) {
   } else if (incoming_seq > ctx->last_seq) {
     /* Update the replay window */
     uint64_t shift = incoming_seq - ctx->last_seq;
-    ctx->sliding_window = ctx->sliding_window << shift;
+    ctx->sliding_window = shift > 63 ? 0 : ctx->sliding_window << shift;
     /* bitfield. B0 biggest seq seen.  B1 seq-1 seen, B2 seq-2 seen etc. */
     ctx->sliding_window |= 1;
     ctx->last_seq = incoming_seq;
